@@ -362,6 +362,8 @@ func VF_C04_ResumeLeg() {
 	if len(ds2.sendBuf) == 1 {
 		it := <-ds2.sendBuf
 		vfAssert(strings.ToLower(it.Cmd) == "select" && string(it.Args[0].([]byte)) == strconv.Itoa(ldb), "resumed parser does not re-select the recorded database")
+		// flushed on its own (idle source) this select carries a checkpoint: it must restate the loaded offset, not regress it
+		vfAssert(it.Offset == loaded, "the re-select of a resumed run is tagged with an offset other than the loaded checkpoint offset")
 	}
 	_ = utils.CheckpointKey
 	vfAssertTwin(err != nil, "twin")
